@@ -105,7 +105,9 @@ func btPerturbations() []btPert {
 		_, err := s.Data.MutateRow(ctx, &btpb.MutateRowRequest{TableName: missing, RowKey: []byte("a"), Mutations: []*btpb.Mutation{set("f", 1000)}})
 		return err
 	})
-	add("missing-table/ReadRows", func(s *bt.Server, ctx context.Context) error { return rr(s, ctx, &btpb.ReadRowsRequest{TableName: missing}) })
+	add("missing-table/ReadRows", func(s *bt.Server, ctx context.Context) error {
+		return rr(s, ctx, &btpb.ReadRowsRequest{TableName: missing})
+	})
 	add("missing-table/SampleRowKeys", func(s *bt.Server, ctx context.Context) error {
 		st, err := s.Data.SampleRowKeys(ctx, &btpb.SampleRowKeysRequest{TableName: missing})
 		if err == nil {
@@ -398,7 +400,7 @@ func btRobustness(engine string, r *rand.Rand, nFuzz int) []robEvent {
 			class = "fuzz/CheckAndMutateRow"
 			rq := &btpb.CheckAndMutateRowRequest{TableName: string(fz), RowKey: ps(),
 				PredicateFilter: &btpb.RowFilter{Filter: &btpb.RowFilter_ColumnRangeFilter{ColumnRangeFilter: &btpb.ColumnRange{FamilyName: string(ps()), StartQualifier: &btpb.ColumnRange_StartQualifierOpen{StartQualifierOpen: ps()}}}},
-				TrueMutations: []*btpb.Mutation{{Mutation: &btpb.Mutation_DeleteFromRow_{DeleteFromRow: &btpb.Mutation_DeleteFromRow{}}}}}
+				TrueMutations:   []*btpb.Mutation{{Mutation: &btpb.Mutation_DeleteFromRow_{DeleteFromRow: &btpb.Mutation_DeleteFromRow{}}}}}
 			reqMsg = rq
 			_, err = s.Data.CheckAndMutateRow(ctx, rq)
 		case 4:
